@@ -27,6 +27,21 @@ CHECKS = {
          "All boundary ints/uints (every +-2^k, +-2^k+-1) in decimal and 4 hex spellings with u/U, the first out-of-range magnitudes, doubles over all finite exponents x 10 mantissa patterns x up to 7 spellings (thorough: 245k), all strings of length <=2/<=3 over 11 hostile characters x 7 escape forms x quotes x prefixes (thorough: 971k), all 256 bytes in every spelling, and a rejection set (all proper prefixes of every escape form, surrogates, >10FFFF). Each literal is compiled and evaluated; the result must equal the spelled value bit for bit or be a syntax error.",
          "Trusted: std float formatting round-trips; unknown escapes / leading zeros / exponent overflow are not generated (unspecified).",
          "DESIGN.md section 3, C13"),
+ "C14": ("exploration",
+         "bounded exhaustive enumeration of (value, constructor, literal/bound form) cells, round-trip equations and f-string segment sequences against a reference conversion table",
+         "Every value of the numeric boundary grid, of a string grid (renderings of every grid number, signs, blanks, separators, exponent forms, non-ASCII digits, out-of-range digit strings, bool literals, timestamps, durations), valid and invalid UTF-8 bytes and one value per other type is passed to each of the 10 constructors, bound and literal, and compared with a reference conversion (plus type(T(x)) == T); the round-trip equations are evaluated inside CEL over dense grids and all double exponents; every f-string of 1..3/4 segments over 20 segment kinds and both quote styles is compared with the concatenation the implementation itself computes. Complete for these grids only.",
+         "Trusted: std float parsing/printing. NaN/negative double to integer, '+1', 'inf', '.5', string() of bool/list/map/null are left unspecified; dyn is the identity.",
+         "DESIGN.md section 3, C14"),
+ "C15": ("exploration",
+         "bounded exhaustive enumeration of (string, needle) pairs, regex x string x template cells, numeric grid cells and argument-type tuples against naive reference implementations",
+         "All strings of length <=3/4 over {a,b,A,blank,e-acute,E-acute,sharp-s,dotted-I} x all needles of length <=2 for the 14 searching/splitting/replacing functions, splitAt at every offset, 14 regex patterns x all strings of length <=2/3 x 5 templates against the regex crate, the 8 math functions over the numeric grid (pow over all pairs of 100 values) against exact i128/IEEE references, and every documented function x every argument-type tuple of arity 0..3/4 over a one-value-per-type pool (undocumented shapes must fail). Complete for these bounds only.",
+         "Trusted: Rust's case mapping, the regex crate as the definition of regex semantics, IEEE hardware. Empty needles, sqrt of negative ints, rounding outside the int range and the undocumented call form are unspecified. Two known findings (null treated as absent by the overload dispatch).",
+         "DESIGN.md section 3, C15"),
+ "C16": ("exploration",
+         "bounded exhaustive enumeration of (instant, zone, accessor) cells, (instant, duration) law pairs and unit pairs/triples against own calendar arithmetic and exact unit definitions",
+         "Every boundary instant (year 1, leap edges, epoch, US/EU DST transition seconds, 9999, chrono's ends) x 4 sub-second parts x every zone name of the tz database (quick: every 8th plus unusual ones) x the 10 accessors against civil arithmetic computed by the check; unknown zones; signed boundary durations; the three arithmetic laws, order and range errors over all pairs; every accepted unit spelling pair x 8 magnitudes x int/uint/double and all unit triples. Complete for these grids only.",
+         "Trusted: chrono-tz's zone offsets; 7-digit unit constants accepted within 2e-6 relative. Known finding: getDayOfWeek(zone) is one-based (pinned by a repository test).",
+         "DESIGN.md section 3, C16"),
 }
 
 NOT_YET = "check not built yet in this revision of /verif (work in progress; see DESIGN.md section 3 for the planned bounded-exhaustive check)"
